@@ -217,7 +217,11 @@ func NewSubscriber(host host.Host, lsys ipld.LinkSystem, options ...Option) (*Su
 		closing: make(chan struct{}),
 
 		handlers: make(map[peer.ID]*handler),
-		inEvents: make(chan SyncFinished, 1),
+		// Not buffered: when a sync returns, the distributor has received
+		// its SyncFinished. With a buffer, a listener cancelled right after
+		// the sync returned could be removed before the distributor got to
+		// the buffered event, and miss it.
+		inEvents: make(chan SyncFinished),
 
 		addEventChan: make(chan chan<- SyncFinished),
 		rmEventChan:  make(chan chan<- SyncFinished),
